@@ -19,6 +19,12 @@ impl Bytes {
     #[verifier::external_body]
     pub fn remaining(&self) -> (r: usize) ensures r == self@.len() { unimplemented!() }
 }
+// A-bytes-27: Bytes: From<Vec<u8>> keeps the bytes
+impl vstd::std_specs::convert::FromSpecImpl<Vec<u8>> for Bytes {
+    open spec fn obeys_from_spec() -> bool { true }
+    open spec fn from_spec(v: Vec<u8>) -> Self { Bytes { v } }
+}
+impl From<Vec<u8>> for Bytes { fn from(v: Vec<u8>) -> (r: Bytes) { Bytes { v } } }
 impl BytesMut {
     pub open spec fn view(&self) -> Seq<u8> { self.v@ }
     // A-bytes-01: remaining()/len() are the number of readable bytes (an allocation never exceeds isize::MAX)
